@@ -132,4 +132,97 @@ theorem intersection_dir10 (xs ys : List Obj)
 
 example : intersection (Fn.test2 .dir10) [.int 1, .int 2] [.int 12, .int 13] = [.int 2] := by decide
 
+/-! ## union: duplicates between the two lists -/
+section UnionTight
+
+/-- the fold of `union` adds at most … : when the elements taken so far hold a match of `z` nothing matching `z`
+    is added, otherwise at most one element matching `z` -/
+theorem union_fold_count (eqv : α → α → Bool)
+    (hsymm : ∀ a b, eqv a b = true → eqv b a = true)
+    (htrans : ∀ a b c, eqv a b = true → eqv b c = true → eqv a c = true) (z : α) (ys acc : List α) :
+    (ys.foldl (fun acc y => if acc.any (fun a => eqv a y) then acc else acc ++ [y]) acc).countP (eqv z) ≤
+      if 0 < acc.countP (eqv z) then acc.countP (eqv z) else ys.countP (eqv z) := by
+  induction ys generalizing acc with
+  | nil =>
+    simp only [List.foldl_nil, List.countP_nil]
+    split <;> omega
+  | cons y ys ih =>
+    simp only [List.foldl_cons]
+    by_cases hzy : eqv z y = true
+    · by_cases hacc : 0 < acc.countP (eqv z)
+      · -- an element matching z is already taken: y matches it and is not added
+        obtain ⟨a, ha, haz⟩ := List.countP_pos_iff.mp hacc
+        have hay : eqv a y = true := htrans a z y (hsymm z a haz) hzy
+        have hany : acc.any (fun a => eqv a y) = true := List.any_eq_true.mpr ⟨a, ha, hay⟩
+        rw [hany, if_pos rfl]
+        have := ih acc
+        rw [if_pos hacc] at this ⊢
+        exact this
+      · have h0 : acc.countP (eqv z) = 0 := by omega
+        rw [if_neg hacc, List.countP_cons_of_pos hzy]
+        by_cases hany : acc.any (fun a => eqv a y) = true
+        · rw [hany, if_pos rfl]
+          have := ih acc
+          rw [if_neg hacc] at this
+          omega
+        · have hany' : acc.any (fun a => eqv a y) = false := by simpa using hany
+          rw [hany']
+          simp only [Bool.false_eq_true, if_false]
+          have h1 : (acc ++ [y]).countP (eqv z) = 1 := by
+            rw [List.countP_append, h0]; simp [hzy]
+          have := ih (acc ++ [y])
+          rw [h1] at this
+          simp only [Nat.zero_lt_one, if_true] at this
+          omega
+    · have hzy' : eqv z y = false := by simpa using hzy
+      have hc : (y :: ys).countP (eqv z) = ys.countP (eqv z) := by
+        rw [List.countP_cons_of_neg (by simp [hzy'])]
+      rw [hc]
+      by_cases hany : acc.any (fun a => eqv a y) = true
+      · rw [hany, if_pos rfl]; exact ih acc
+      · have hany' : acc.any (fun a => eqv a y) = false := by simpa using hany
+        rw [hany']
+        simp only [Bool.false_eq_true, if_false]
+        have h1 : (acc ++ [y]).countP (eqv z) = acc.countP (eqv z) := by
+          rw [List.countP_append]; simp [hzy']
+        have := ih (acc ++ [y])
+        rw [h1] at this
+        exact this
+
+theorem unionTight_iff (eqv : α → α → Bool) (xs ys r : List α) :
+    unionTight eqv xs ys r = true ↔
+      ∀ z, z ∈ xs ∨ z ∈ ys → r.countP (eqv z) ≤ max (xs.countP (eqv z)) (ys.countP (eqv z)) := by
+  simp only [unionTight, List.all_eq_true, List.mem_append, decide_eq_true_eq]
+
+/-- the model's own `union` passes the check on duplicates between the lists when the test is an equivalence -/
+theorem unionTight_union (eqv : α → α → Bool)
+    (hsymm : ∀ a b, eqv a b = true → eqv b a = true)
+    (htrans : ∀ a b c, eqv a b = true → eqv b c = true → eqv a c = true) (xs ys : List α) :
+    unionTight eqv xs ys (union eqv xs ys) = true := by
+  rw [unionTight_iff]
+  intro z _
+  have h := union_fold_count eqv hsymm htrans z ys xs
+  unfold union
+  split at h <;> omega
+
+/-- a `union` that finds no match at all (the test called with swapped arguments, `set_functions_swapped_test`)
+    and therefore returns both lists whole is rejected as soon as one element of list-1 has a partner in list-2 -/
+theorem unionTight_rejects_append (eqv : α → α → Bool) (xs ys : List α) (x y : α) (hx : x ∈ xs) (hy : y ∈ ys)
+    (hxx : eqv x x = true) (hxy : eqv x y = true) :
+    unionTight eqv xs ys (xs ++ ys) = false := by
+  rw [Bool.eq_false_iff]
+  intro h
+  rw [unionTight_iff] at h
+  have h1 := h x (Or.inl hx)
+  rw [List.countP_append] at h1
+  have p1 : 0 < xs.countP (eqv x) := List.countP_pos_iff.mpr ⟨x, hx, hxx⟩
+  have p2 : 0 < ys.countP (eqv x) := List.countP_pos_iff.mpr ⟨y, hy, hxy⟩
+  omega
+
+example : unionTight (Fn.test2 .dir10) [.int 1, .int 2] [.int 12, .int 13] [.int 1, .int 2, .int 13] = true ∧
+    unionTight (Fn.test2 .dir10) [.int 1, .int 2] [.int 12, .int 13] [.int 1, .int 2, .int 12, .int 13] = false := by
+  decide
+
+end UnionTight
+
 end SlipVerif.Seq
